@@ -9,6 +9,7 @@ pub mod c07;
 pub mod c08;
 pub mod c09;
 pub mod c10;
+pub mod c11;
 pub mod c14;
 pub mod c15;
 pub mod c16;
@@ -31,6 +32,7 @@ pub fn dispatch(id: &str, tier: Tier) -> i32 {
         "C08" => c08::run(tier).finish(),
         "C09" => c09::run(tier).finish(),
         "C10" => c10::run(tier).finish(),
+        "C11" => c11::run(tier).finish(),
         "C14" => c14::run(tier).finish(),
         "C15" => c15::run(tier).finish(),
         "C16" => c16::run(tier).finish(),
